@@ -388,6 +388,7 @@ def translate_model(out):
     cls = find_class(mod, "Model")
     fn = find_func(cls.body, "_infer")
     thr = None
+    stable = False
     for n in ast.walk(fn):
         if isinstance(n, ast.Assign) and len(n.targets) == 1 and isinstance(n.targets[0], ast.Name) and n.targets[0].id == "converged_bounds":
             v = n.value
@@ -396,6 +397,13 @@ def translate_model(out):
             if ast.unparse(v.test) != "direction in [[Direction.UPWARD], [Direction.DOWNWARD]]":
                 fail("_infer: single-direction rule changed", n)
             c = v.orelse
+            stable = False
+            if isinstance(c, ast.BoolOp) and isinstance(c.op, ast.And) and len(c.values) == 2:
+                # `bounds_diff <= eps and self.shape[1] == n_groundings`: no convergence while groundings were created
+                if ast.unparse(c.values[1]) != "self.shape[1] == n_groundings" or "n_groundings = self.shape[1]" not in ast.unparse(fn):
+                    fail("_infer: grounding-stability clause changed", n)
+                stable = True
+                c = c.values[0]
             if not (isinstance(c, ast.Compare) and isinstance(c.left, ast.Name) and c.left.id == "bounds_diff"
                     and len(c.ops) == 1 and isinstance(c.ops[0], ast.LtE)):
                 fail("_infer: convergence comparison changed", n)
@@ -404,6 +412,7 @@ def translate_model(out):
         fail("_infer: convergence threshold not found")
     out.append(f"Definition infer_eps : Q := {qlit(thr)}.  (* {thr!r} as the exact double *)")
     out.append("Definition infer_converged (bounds_diff : Q) : bool := qleb bounds_diff infer_eps.")
+    out.append(f"Definition infer_requires_stable_groundings : bool := {'true' if stable else 'false'}.")
     src = ast.unparse(fn)
     for needle in ("if max_steps and steps >= max_steps:", "facts_inferred += bounds_diff", "steps += 1",
                    "if self.query and self.query.is_classically_resolved and (not self._converge):"):
